@@ -22,6 +22,7 @@ SUITES = {
         "cmd/bisquitt/zz_verif_cli_test.go": "cli_drv_test.go",
         "cmd/bisquitt-pub/zz_verif_cli_test.go": "cli_drv_test.go",
         "cmd/bisquitt-sub/zz_verif_cli_test.go": "cli_drv_test.go",
+        "gateway/zz_verif_system_test.go": "system_drv_test.go",
     },
     "codec": {"pkg": "./packets1/", "run": "TestVerifCodec$", "driver": "codec", "timeout": "30m"},
     "topics": {"pkg": "./topics/", "run": "TestVerifTopics$", "driver": "topics", "timeout": "10m"},
@@ -34,6 +35,10 @@ SUITES = {
                 "case_prefix": "case "},
     "client": {"pkg": "./client/", "run": "TestVerifClient$", "driver": "client", "timeout": "40m",
                "generator": "gen_client.py", "gen": lambda prop: CL_PROFILES.get(prop, CL_PROFILES["*"]), "case_prefix": "case "},
+    # the real client + the real gateway (ListenAndServe, UDP loopback) + a conforming broker (TCP loopback): real time, 8 cases at a time
+    "system": {"pkg": "./gateway/", "run": "TestVerifSystem$", "driver": "system", "timeout": "40m",
+               "generator": "gen_system.py", "gen": lambda prop: [("mix", 45, 300), ("sleep", 25, 180), ("longsleep", 2, 6)],
+               "case_prefix": "case "},
     "cli": {"pkg": ["./cmd/bisquitt/", "./cmd/bisquitt-pub/", "./cmd/bisquitt-sub/"], "run": "TestVerifCLI$", "driver": "cli",
             "timeout": "30m", "parts": ["sub", "pub", "gw"], "generator": "gen_cli.py",
             "gen": lambda prop: ([("sec", 8, 8), ("mix", 25, 300)] if prop == "C31" else
@@ -473,6 +478,34 @@ PROPS.update({
               assumptions=["a keep-alive-enforcing broker is assumed, not run: the bound '1.5 x keep-alive after the last packet' is the broker's; the check establishes that the "
                            "gateway's last packet of its own accord comes no later than the announced sleep + retry budget"]),
 })
+
+PROPS["C26"] = {
+    "level": "proof",
+    "level_text": "PARTIAL proof + executed composition. Proved for ALL states of the two hand-written models: the agreements between client and gateway on which the exchanges "
+                  "rest — c26_registration_id_stable / c26_partial_burst_same_id (a topic being registered keeps its TopicID: every REGISTER of a burst carries the same ID), "
+                  "c26_client_register_new / _repeated / _conflict (the client accepts a new name and a repeated (name, ID), refuses only a clash), c26_subscribe_keeps_id (no second "
+                  "TopicID for a registered name), c26_sleep_from_awake_silent with c11_wake (both sides agree on 'asleep' after PINGRESP without a DISCONNECT), c26_spec_* (sanity of the "
+                  "specification). The property at full strength (C26Full: every script, composed model = specification) is stated and NOT proved; it is decided script by script: the "
+                  "system suite runs the REAL client library against the REAL gateway (Gateway.ListenAndServe, UDP loopback) and a conforming MQTT broker, runs the composed Lean model "
+                  "(client model || lossless link || gateway model || broker) on the same scripts (correspondence) and evaluates the specification Spec/System.lean on the "
+                  "implementation's own results (every call's result, the broker's received publishes and subscription table, every expected handler invocation). Three genuine "
+                  "defects found this way were repaired (fix commits 0298647, 75d4de9, 3a936e9); one is recorded as a known finding",
+    "technique": "Lean 4 theorems over the two hand-written models + executed composed model + specification monitor on runs of the two real implementations together",
+    "suites": ["system", "gateway", "client"],
+    "relevant": lambda line: line.startswith("DIFF system "),
+    "rule": "scripts generated by lib/gen_system.py from one seed: connect, register, subscribe (plain, wildcard, short, predefined; QoS 0-2; repeated), unsubscribe, publish at QoS 0-2 on "
+            "registered / short / predefined / never-registered names, ping, broker-side publishes on known, new, short and predefined topics, bursts of 2-5 messages on one (mostly "
+            "new) topic, sleep cycles of 1-3 sleeps with messages arriving during and between them, reconnect, disconnect; payloads unique per case; plus the gateway and client "
+            "suites (whose corpora hold the packet-level witnesses of the repaired defects)",
+    "trusted_base": TB_GW + TB_CL[len(TB_COMMON):] + [
+        "Bisquitt/Model/System.lean (composition: zero-delay lossless link, 50 ms ticks) and Spec/System.lean (expectations); the harness' broker (harness/system_drv_test.go) and its "
+        "Lean twin Sys.Broker are assumed conforming: one delivery per message at the highest matching granted QoS, QoS 2 routed on PUBREL",
+        "real time: the system suite sleeps 40 ms after every call and waits for 200 ms of silence at the end of a case; loopback UDP is assumed lossless and ordered"],
+    "assumptions": ["DTLS, authentication, wills and the keep-alive goroutine are off in the system suite (they are covered by the client, gateway and cli suites)",
+                    "duplicates of a message at the handler (retransmissions queued for a sleeping client) are not judged: the property asks that a message reaches the handler",
+                    "calls are made one at a time (the property's 'sequence'); concurrent API use is the client suite's business"],
+    "explanation": "partial theorems c26_*; composed model executed beside the two real implementations; specification monitor; 1 known finding",
+}
 
 # the thorough tier: four times the case counts written above (a gateway or client session costs about 2 ms)
 for _d in (GW_PROFILES, CL_PROFILES):
